@@ -28,6 +28,7 @@ be issued.
 
 from __future__ import absolute_import
 
+import collections.abc
 import uuid
 
 from slimta.relay import RelayError
@@ -65,11 +66,19 @@ class ProxyQueue(object):
 
     def enqueue(self, envelope):
         try:
-            self.relay._attempt(envelope, 0)
+            results = self.relay._attempt(envelope, 0)
         except RelayError as e:
             return [(envelope, e)]
-        else:
-            return [(envelope, uuid.uuid4().hex)]
+        # A relay may report per-recipient results: the message was only
+        # proxied successfully if no recipient failed.
+        if isinstance(results, collections.abc.Mapping):
+            results = list(results.values())
+        elif not isinstance(results, collections.abc.Sequence):
+            results = []
+        for result in results:
+            if isinstance(result, RelayError):
+                return [(envelope, result)]
+        return [(envelope, uuid.uuid4().hex)]
 
 
 # vim:et:fdm=marker:sts=4:sw=4:ts=4
